@@ -16,6 +16,7 @@ import concurrent.futures as cf
 import importlib
 import json
 import os
+import re
 import subprocess
 import sys
 import time
@@ -326,7 +327,8 @@ def main(argv=None):
     for v in violations:
         if v["kind"] == "lemma":
             os.makedirs(REPLAYS, exist_ok=True)
-            path = os.path.join(REPLAYS, "%s-lemma-%s.json" % (pid, v["name"].replace("/", "_")[:60]))
+            safe = re.sub(r"[^A-Za-z0-9_.-]+", "_", v["name"])[:60]
+            path = os.path.join(REPLAYS, "%s-lemma-%s.json" % (pid, safe))
             json.dump(v, open(path, "w"), indent=1)
             v["replay"] = path
         print("VIOLATION property=%s replay=%s" % (pid, v["replay"]))
